@@ -209,7 +209,7 @@ pub fn decode(data: &[u8], prof: &Profile) -> Scenario {
                     }
                 }
                 5 if feat & F_DELETE != 0 => Some(Edit::Delete(s, (1 + (b % 7)) | if b >= 200 { 8 } else { 0 })),
-                6 if feat & F_MULTI != 0 => Some(Edit::TogglePart(s, if b >= 176 { 3 } else { b % 3 })),
+                6 if feat & F_MULTI != 0 => Some(if (160..176).contains(&b) { Edit::ToggleOrder(s) } else { Edit::TogglePart(s, if b >= 176 { 3 } else { b % 3 }) }),
                 7 if feat & F_BUMP != 0 => {
                     let always: Vec<usize> = (0..n).filter(|i| slots[*i].kind == Kind::Always).collect();
                     if always.is_empty() {
@@ -231,11 +231,11 @@ pub fn decode(data: &[u8], prof: &Profile) -> Scenario {
             let prev: Vec<Edit> = steps[si - 1usize]
                 .edits
                 .iter()
-                .filter(|e: &&Edit| matches!(e, Edit::ToggleJob(_) | Edit::ToggleDep { .. } | Edit::TogglePart(..)))
+                .filter(|e: &&Edit| matches!(e, Edit::ToggleJob(_) | Edit::ToggleDep { .. } | Edit::TogglePart(..) | Edit::ToggleOrder(_)))
                 .cloned()
                 .collect();
             if !prev.is_empty() {
-                edits.retain(|e| !matches!(e, Edit::ToggleJob(_) | Edit::ToggleDep { .. } | Edit::TogglePart(..)));
+                edits.retain(|e| !matches!(e, Edit::ToggleJob(_) | Edit::ToggleDep { .. } | Edit::TogglePart(..) | Edit::ToggleOrder(_)));
                 edits.extend(prev);
             }
         }
@@ -299,6 +299,7 @@ fn set_slot(sc: &mut Scenario, i: usize, kind: Kind, deps: &[usize]) {
 ///  2: an Ephemeral with two consumers, one of which has a second input that fails or changes
 ///     while the Ephemeral runs (concurrency)
 ///  3: a fan-in (several upstreams of one job decided within one round of signals)
+///  4: a dependency removed while its consumer is not recorded anew, and put back later
 fn ensure_slots(sc: &mut Scenario, need: usize) {
     while sc.slots.len() < need {
         let i = sc.slots.len();
@@ -308,8 +309,8 @@ fn ensure_slots(sc: &mut Scenario, need: usize) {
 }
 
 fn plant_motif(sc: &mut Scenario, feat: u16, mv: u8) {
-    let which = mv % 4;
-    let var = mv / 4;
+    let which = mv % 5;
+    let var = mv / 5;
     let extended = which == 0 && var & 8 != 0;
     let fan = 3 + (var & 1) as usize;
     let chain_len = 3 + [0usize, 1, 2, 0][((var >> 1) & 3) as usize];
@@ -317,6 +318,7 @@ fn plant_motif(sc: &mut Scenario, feat: u16, mv: u8) {
         0 => if extended { 8 } else { 6 },
         1 => chain_len + 3,
         2 => 4,
+        4 => 5,
         _ => 2 + fan * if var & 2 == 0 { 3 } else { 1 },
     };
     ensure_slots(sc, need);
@@ -397,13 +399,83 @@ fn plant_motif(sc: &mut Scenario, feat: u16, mv: u8) {
             let mut d: Vec<usize> = vec![0];
             d.extend(sc.init[entry].deps.iter().map(|x| x.0));
             set_slot(sc, entry, sc.slots[entry].kind, &d);
-            if var & 1 == 0 {
-                set_slot(sc, len + 2, Kind::Output, &[1]);
+            let interrupted = var & 32 != 0;
+            if var & 1 == 0 || interrupted {
+                // a side consumer of the chain's head; in the interrupted form it also sees the
+                // changing input, so that after the cut-off run it is ahead of the chain's tail
+                if interrupted {
+                    set_slot(sc, len + 2, Kind::Output, &[0, 1]);
+                } else {
+                    set_slot(sc, len + 2, Kind::Output, &[1]);
+                }
             }
+            if interrupted {
+                // the evaluation after the change is cut off (generated abort point or failure set),
+                // the next one resumes with nothing else changed
+                while sc.steps.len() < 3 {
+                    let st = sc.steps[1].clone();
+                    sc.steps.push(st);
+                }
+                let k = sc.steps[1].plan.sched.choices.first().cloned().unwrap_or(0) as u32 % (2 * (len as u32) + 4);
+                let st = &mut sc.steps[1];
+                st.edits = vec![Edit::Bump(0)];
+                if st.plan.fail == 0 || var & 1 == 0 {
+                    st.plan.fail = 0;
+                    st.plan.abort = Some((k, var & 2 != 0));
+                } else {
+                    st.plan.abort = None;
+                }
+                let st2 = &mut sc.steps[2];
+                st2.edits = vec![];
+                st2.plan.abort = None;
+                st2.plan.fail = 0;
+            } else {
+                let st = &mut sc.steps[1];
+                st.edits = vec![Edit::Bump(0)];
+                st.plan.abort = None;
+                st.plan.fail &= !((1u32 << (len + 2)) - 1);
+            }
+        }
+        4 => {
+            // a dependency is removed in an evaluation in which its consumer is *not* recorded anew
+            // (another upstream fails, or the run is aborted), the upstream changes meanwhile, and the
+            // dependency is put back later: the consumer has no account of that input any more and
+            // must run - whatever other records of it happen to look like
+            set_slot(sc, 0, Kind::Always, &[]);
+            set_slot(sc, 1, if var & 1 == 0 { Kind::Output } else { Kind::Ephemeral }, &[0]);
+            set_slot(sc, 2, Kind::Output, &[]);
+            set_slot(sc, 3, Kind::Output, &[1, 2]);
+            set_slot(sc, 4, Kind::Output, &[3]);
+            if var & 2 == 0 {
+                // records that do not name their outputs and coarse contents: records of different jobs
+                // are frequently equal
+                if sc.cfg.scope == Scope::Whole {
+                    sc.cfg.anon = true;
+                }
+                sc.slots[1].coarse = true;
+                sc.slots[2].coarse = true;
+            }
+            while sc.steps.len() < 3 {
+                let st = sc.steps[sc.steps.len() - 1].clone();
+                sc.steps.push(st);
+            }
+            let k = sc.steps[1].plan.sched.choices.first().cloned().unwrap_or(0) as u32 % 4;
             let st = &mut sc.steps[1];
-            st.edits = vec![Edit::Bump(0)];
-            st.plan.abort = None;
-            st.plan.fail &= !((1u32 << (len + 2)) - 1);
+            st.edits = vec![Edit::ToggleDep { down: 3, up: 1, mask: 1 }, Edit::Bump(0), Edit::Delete(2, 1)];
+            if var & 4 == 0 {
+                st.plan.fail = 0b100;
+                st.plan.abort = None;
+            } else {
+                st.plan.fail = 0;
+                st.plan.abort = Some((k, var & 8 != 0));
+            }
+            let st2 = &mut sc.steps[2];
+            st2.edits = vec![Edit::ToggleDep { down: 3, up: 1, mask: 1 }];
+            if var & 16 != 0 {
+                st2.edits.push(Edit::Bump(0));
+            }
+            st2.plan.abort = None;
+            st2.plan.fail = 0;
         }
         3 => {
             // fan-in: `fan` Output jobs below a common Always root and above a common sink, so that
